@@ -1,7 +1,11 @@
 SPECIFICATION Spec
 CONSTANTS
   Invalidate = TRUE
-  MaxLen = 7
+  ShareTimes = TRUE
+  InPlace = FALSE
+  MaxLen = 8
+  Small = FALSE
 INVARIANT Coherent
-INVARIANT CachesCurrent
+INVARIANT Independent
+INVARIANT DurationLaw
 INVARIANT LayoutsAgree
